@@ -12,6 +12,18 @@ V = os.path.dirname(os.path.dirname(os.path.abspath(__file__)))
 a = sys.argv[1:]
 
 
+
+def _copytree(src, dst, **kw):
+    """shutil.copytree that tolerates files which vanish while it runs (the repository's own tests, when they run at the same
+    time, create and delete scratch files in the repository's directory)."""
+    try:
+        shutil.copytree(src, dst, **kw)
+    except shutil.Error as ex:
+        real = [e for e in ex.args[0] if "No such file or directory" not in str(e[2])]
+        if real:
+            raise
+
+
 def opt(flag, default):
     if flag in a:
         i = a.index(flag); v = a[i + 1]; del a[i:i + 2]; return v
@@ -47,7 +59,7 @@ def job(item):
     tmp = tempfile.mkdtemp(prefix="rv_")
     try:
         dst = os.path.join(tmp, "repo")
-        shutil.copytree("/repo", dst, ignore=shutil.ignore_patterns(".git", "__pycache__", "docs", "example_netlists"), symlinks=True)
+        _copytree("/repo", dst, ignore=shutil.ignore_patterns(".git", "__pycache__", "docs", "example_netlists"), symlinks=True)
         os.symlink("/repo/example_netlists", os.path.join(dst, "example_netlists"))
         r = subprocess.run(["patch", "-p1", "-s", "-i", os.path.join(V, "seeded", name, "patch.diff")], cwd=dst, capture_output=True, text=True)
         if r.returncode != 0:
